@@ -403,3 +403,5 @@ def check(ctx):
     c17.check_current(ctx)
     check_gc(ctx)
     check_who_may(ctx)
+    from . import c13
+    c13.check_gc(ctx)          # a log whose writes are not yet in a durable table is never collected
